@@ -35,6 +35,9 @@ func (bc *BaseContract) TxMultiSwapBegin(sender *types.Sender, token string, mul
 	if err != nil {
 		return "", err
 	}
+	if _, err = multiswap.Load(bc.GetStub(), bc.GetStub().GetTxID()); err == nil {
+		return "", errors.New("multiswap already exists")
+	}
 	assets, err := types.ConvertToAsset(multiSwapAssets.Assets)
 	if err != nil {
 		return "", err
